@@ -1,6 +1,7 @@
 (* Model/MerkleAcc.v — executable transcription of
-     sdk/src/utils/merkle.rs         :: MerkleAccumulator::add_merkle_leaf (first-call header skip, the `<= 8` early
-                                        return, fixed-size buffering with remainders, variable mode), set_fixed_size
+     sdk/src/utils/merkle.rs         :: MerkleAccumulator::add_merkle_leaf (empty-chunk early return, the header skip
+                                        spread over the first chunks through `header_skipped`, fixed-size buffering
+                                        with remainders, variable mode), set_fixed_size
      sdk/src/builder.rs              :: Builder::update_hash_from_stream (flush of the pending remainders)
      sdk/src/assertions/bmff_hash.rs :: MerkleMap::create_mms_from_mdat_leaves, and the per-mdat part of
                                         BmffHash::validate_merkle_maps_mdat_boxes (ranges from start + 16, leaf checks)
@@ -18,9 +19,10 @@ Arguments AErr {A} e.
 
 Definition leaf := (N * bytes)%type.          (* (recorded length, content) *)
 
-(* the entries of `merkle_leaves` and `fixed_size_remainder` for one mdat_id; None = key absent *)
-Record mstate := MS { leaves : option (list leaf); rem : option bytes }.
-Definition fresh_state : mstate := MS None None.
+(* the entries of `merkle_leaves`, `fixed_size_remainder` and `header_skipped` for one mdat_id; None = key absent
+   (an absent `header_skipped` entry is 0: `.entry(id).or_insert(0)`) *)
+Record mstate := MS { leaves : option (list leaf); rem : option bytes; skipped : N }.
+Definition fresh_state : mstate := MS None None 0.
 
 Definition is_none {A} (o : option A) : bool := match o with None => true | Some _ => false end.
 
@@ -42,15 +44,15 @@ Fixpoint fixed_loop (fuel : nat) (fs : N) (st : mstate) (cur : bytes) (data_left
           else
             let buf' := buf ++ firstn (N.to_nat to_copy) cur in
             if len buf' =? fs
-            then fixed_loop fuel' fs (MS (push_leaf (leaves st) (fs, buf')) None)
+            then fixed_loop fuel' fs (MS (push_leaf (leaves st) (fs, buf')) None (skipped st))
                             (skipn (N.to_nat to_copy) cur) (data_left - to_copy) data_len
-            else AOk (MS (leaves st) (Some buf'))
+            else AOk (MS (leaves st) (Some buf') (skipped st))
       | None =>
           let to_copy := N.min fs data_left in
           if to_copy =? 0 then AOk st
           else if len cur <? to_copy then AErr AIo
-          else if to_copy <? fs then AOk (MS (leaves st) (Some (firstn (N.to_nat to_copy) cur)))
-          else fixed_loop fuel' fs (MS (push_leaf (leaves st) (fs, firstn (N.to_nat to_copy) cur)) None)
+          else if to_copy <? fs then AOk (MS (leaves st) (Some (firstn (N.to_nat to_copy) cur)) (skipped st))
+          else fixed_loop fuel' fs (MS (push_leaf (leaves st) (fs, firstn (N.to_nat to_copy) cur)) None (skipped st))
                           (skipn (N.to_nat to_copy) cur) (data_left - to_copy) data_len
       end
   end.
@@ -58,16 +60,20 @@ Fixpoint fixed_loop (fuel : nat) (fs : N) (st : mstate) (cur : bytes) (data_left
 (* add_merkle_leaf for one mdat_id; [fixed] is `self.fixed_size` in bytes *)
 Definition add_leaf (fixed : option N) (st : mstate) (large : bool) (data : bytes) : ares mstate :=
   let data_len := len data in
-  let first := negb large && is_none (leaves st) && is_none (rem st) in
-  if first && (data_len <=? SKIP_EARLY_MAX) then AOk st            (* early return: nothing recorded *)
+  if data_len =? 0 then AOk st                                      (* `if data.is_empty() { return Ok(()) }` *)
   else
-    let hash_start := if first then HEADER_SKIP else 0 in
-    match fixed with
-    | Some fs =>
-        fixed_loop (S (length data)) fs st (skipn (N.to_nat hash_start) data) (data_len - hash_start) data_len
-    | None =>
-        AOk (MS (push_leaf (leaves st) (data_len - hash_start, skipn (N.to_nat hash_start) data)) (rem st))
-    end.
+    let first := negb large && is_none (leaves st) && is_none (rem st) in
+    let to_skip := if first then N.min (HEADER_SKIP - skipped st) data_len else 0 in
+    let st1 := if first then MS (leaves st) (rem st) (skipped st + to_skip) else st in
+    if first && (to_skip =? data_len) then AOk st1                   (* the whole chunk lies in the excluded prefix *)
+    else
+      let hash_start := to_skip in
+      match fixed with
+      | Some fs =>
+          fixed_loop (S (length data)) fs st1 (skipn (N.to_nat hash_start) data) (data_len - hash_start) data_len
+      | None =>
+          AOk (MS (push_leaf (leaves st1) (data_len - hash_start, skipn (N.to_nat hash_start) data)) (rem st1) (skipped st1))
+      end.
 
 (* a caller feeding one mdat chunk by chunk *)
 Fixpoint run_chunks (fixed : option N) (large : bool) (cs : list bytes) (st : mstate) : ares mstate :=
@@ -102,7 +108,7 @@ Fixpoint acc_run (fixed : option N) (calls : list (N * bool * bytes)) (m : accma
 (* update_hash_from_stream: every pending remainder becomes the last leaf of its mdat (the remainder is not cleared) *)
 Definition flush (st : mstate) : mstate :=
   match rem st with
-  | Some b => MS (push_leaf (leaves st) (len b, b)) (rem st)
+  | Some b => MS (push_leaf (leaves st) (len b, b)) (rem st) (skipped st)
   | None => st
   end.
 Definition final_leaves (st : mstate) : list leaf :=
